@@ -33,6 +33,9 @@ TraceInit == InitState /\ l = 1 /\ nbad = 0
 
 IsImageSrc(ev) == Has(ev, "src") /\ ev.src = "image" /\ ~Has(ev, "edits") /\ ~Has(ev, "trunc") /\ ~Has(ev, "append")
 
+\* round-trip context: the input is the image that the current, accepted configuration just wrote
+RtCtx(ev) == IsImageSrc(ev) /\ ~IsNone(bld.cfg) /\ ~IsNone(wr) /\ IsOk(wr.res) /\ Accepts(bld.cfg)
+
 \* ---- conformance of one logged event in the current state
 ParseEvConf(ev) ==
     /\ P("C01") => ev.panics = <<>>
@@ -41,17 +44,17 @@ ParseEvConf(ev) ==
          [] ev.kind \in FciTypes -> FciDirectConf(ev.kind, ev.b, ev.res)
          [] ev.kind = "custom" -> CustomConf(ev.fam, ev.b, ev.res)
     \* round trip: the image just written from bld parses back to bld's configuration
-    /\ (IsImageSrc(ev) /\ ~IsNone(bld.cfg) /\ ev.kind = bld.cfg.kind /\ P(RoundTripProp(ev.kind))) =>
+    /\ (RtCtx(ev) /\ ev.kind = bld.cfg.kind /\ P(RoundTripProp(ev.kind))) =>
           /\ ev.b = img
           /\ IsOk(ev.res)
           /\ RoundTripOk(bld.cfg, ev.b, ev.res.view, 0)
-    /\ (IsImageSrc(ev) /\ ~IsNone(bld.cfg) /\ ev.kind = "packet" /\ P("C19") /\ bld.cfg.kind \in {"unk", "custom"}) =>
+    /\ (RtCtx(ev) /\ ev.kind = "packet" /\ P("C19") /\ bld.cfg.kind \in {"unk", "custom"}) =>
           LET pt == IF bld.cfg.kind = "unk" THEN bld.cfg.type ELSE bld.cfg.pt
           IN  /\ ev.b = img /\ IsOk(ev.res)
               /\ pt \notin 200..206 =>
                     /\ ev.res.view.variant = "unknown"
                     /\ ev.res.view.inner.data.o = 0 /\ ev.res.view.inner.data.n = Len(img)
-    /\ (IsImageSrc(ev) /\ ~IsNone(bld.cfg) /\ ev.kind = "custom" /\ P("C19") /\ bld.cfg.kind = "custom") =>
+    /\ (RtCtx(ev) /\ ev.kind = "custom" /\ P("C19") /\ bld.cfg.kind = "custom") =>
           LET d == ev.res.direct
               c == bld.cfg
               fix == IF c.has_ssrc THEN 8 ELSE 4
@@ -91,13 +94,17 @@ Conf(ev) ==
       [] ev.op = "calc_size"   -> CalcSizeConf(bld.cfg, ev.res)
       [] ev.op = "write_into"  -> /\ Len(ev.out) = ev.len
                                   /\ WriteConf(bld.cfg, ann, wr, ev.len, ev.fill, ev.res, ev.out)
+      [] ev.op = "write_twice" -> /\ Len(ev.out) = ev.len /\ Len(ev.out1) = ev.len
+                                  /\ WriteConf(bld.cfg, ann, None, ev.len, 0, ev.res, ev.out)
+                                  /\ WriteConf(bld.cfg, ann, [L |-> ev.len, fill |-> 0, res |-> ev.res, out |-> ev.out, same |-> TRUE],
+                                               ev.len, 1, ev.res1, ev.out1)
       [] ev.op = "get_padding" -> GetPaddingConf(bld.cfg, ev.res)
       [] ev.op \in {"item_write", "chunk_write"} -> StandaloneConf(ev)
       [] ev.op = "parse"       -> ParseEvConf(ev)
       [] ev.op = "parse_all"   -> ParseAllConf(ev)
       [] ev.op = "parse_pad"   -> ParsePadConf(ev)
       [] ev.op = "cparse"      -> CParseConf(ev.b, ev.res)
-      [] ev.op = "cnext"       -> cit.valid /\ CNextConf(cit, ev)
+      [] ev.op = "cnext"       -> IF cit.valid THEN CNextConf(cit, ev) ELSE ev.res.t = "closed"
       [] ev.op = "nack_open"   -> (P("C01") \/ P("C15")) => IsOk(ev.res)
       [] ev.op = "nack_next"   -> NackNextConf(nit.its[ev.it + 1], ev.res)
       [] ev.op = "check_padding" -> CheckPaddingConf(ev.p, ev.res)
@@ -119,12 +126,16 @@ Update(ev) ==
             /\ UNCHANGED << img, cit, nit >>
       [] ev.op = "calc_size" -> ann' = ev.res /\ UNCHANGED << bld, wr, img, cit, nit >>
       [] ev.op = "write_into" ->
-            /\ wr' = [L |-> ev.len, fill |-> ev.fill, res |-> ev.res, out |-> ev.out]
+            /\ wr' = [L |-> ev.len, fill |-> ev.fill, res |-> ev.res, out |-> ev.out, same |-> FALSE]
+            /\ img' = IF IsOk(ev.res) /\ ev.res.n <= Len(ev.out) THEN SubSeq(ev.out, 1, ev.res.n) ELSE img
+            /\ UNCHANGED << bld, ann, cit, nit >>
+      [] ev.op = "write_twice" ->
+            /\ wr' = [L |-> ev.len, fill |-> 0, res |-> ev.res, out |-> ev.out, same |-> FALSE]
             /\ img' = IF IsOk(ev.res) /\ ev.res.n <= Len(ev.out) THEN SubSeq(ev.out, 1, ev.res.n) ELSE img
             /\ UNCHANGED << bld, ann, cit, nit >>
       [] ev.op = "cparse" ->
             /\ cit' = CitAfterParse(ev.b, ev.res,
-                         IF IsImageSrc(ev) /\ ~IsNone(bld.cfg) /\ bld.cfg.kind = "compound" /\ ev.b = img
+                         IF RtCtx(ev) /\ bld.cfg.kind = "compound" /\ ev.b = img
                          THEN Leaves(bld.cfg) ELSE <<>>)
             /\ UNCHANGED << bld, ann, wr, img, nit >>
       [] ev.op = "cnext" -> cit' = CitAfterNext(cit, ev.res) /\ UNCHANGED << bld, ann, wr, img, nit >>
